@@ -253,6 +253,14 @@ def asBool : Val → Except Sig Bool
   | .bool b => .ok b
   | _ => .error (.wrong "bool expected")
 
+/-- the environment a function body runs in: parameters (later ones shadow earlier ones), the
+    function's own name if it was declared with one, and the captured snapshot — nothing else -/
+def calleeEnv (fv : Val) (ps : List (String × Ty)) (cap : Frame) (self : Option String)
+    (args : List Val) : Env :=
+  [((List.zip (ps.map (·.1)) args)).reverse ++ (match self with
+      | some x => [(x, fv)]
+      | none => []), cap]
+
 /-- names declared directly in a frame, latest declaration of each name only -/
 def frameFields (f : Frame) : List (String × Val) :=
   f.foldl (fun acc (k, v) => if acc.any (fun p => p.1 == k) then acc else acc ++ [(k, v)]) []
@@ -538,11 +546,7 @@ def callFn : Nat → Val → List Val → M Val
       match body with
       | [.native name] => nativeCall name args
       | _ =>
-        let selfFrame : Frame := match self with
-          | some x => [(x, fv)]
-          | none => []
-        let paramFrame : Frame := ((List.zip (ps.map (·.1)) args)).reverse
-        let env : Env := [paramFrame ++ selfFrame, cap]
+        let env : Env := calleeEnv fv ps cap self args
         tryCatchS (do let _ ← evalSeq f env body; pure Val.unit) fun s =>
           match s with
           | .ret v => pure v
